@@ -4,8 +4,8 @@ import CsVerif.Model.C14
 `hist <copies T|F> <flags: pubkeyOk trial protoHttp hasDomains as 4 chars T|F> <cfg token, ignored> <n> <setting>*n <op>*`
 
 setting  = `nameKey,constKey,enumKey,unparsed,parsed,P`   with `P` = `s<id>` (scalar) or `l<id.id…>` (list, `l` = empty)
-op       = `va:<view 0-3>` | `sm:<kind 0-2>:<pretty T|F>:<parse T|F>` | `c2:<key variant 0-3>` | `cl:<T|F>` | `pf`
-         | `tr:<d>:<which 0-2>` | `rc:<d>:<which 0-2>` | `pr` | `pp` | `mu:v:<view>` | `mu:f:<kind>:<T|F>:<T|F>` | `sn`
+op       = `va:<view 0-3>` | `sm:<kind 0-2>:<pretty T|F>:<parse T|F>` | `c2:<key variant 0-4>` | `cl:<T|F>` | `pf`
+         | `tr:<d>:<which 0-2>` | `rc:<d>:<which 0-2>` | `wr:<d>:<wire 0-2>` | `pr` | `pp` | `mu:v:<view>` | `mu:f:<kind>:<T|F>:<T|F>` | `sn`
 answer   = one token `<result>;<aliased T|F>` per op, then `O:ok`. -/
 namespace C14
 open Proto
@@ -50,6 +50,14 @@ def variantTok (s : String) : Option KeyVariant :=
   | "1" => some .aesRand
   | "2" => some .rsaPriv
   | "3" => some .noKey
+  | "4" => some .aesRandRsa
+  | _ => none
+
+def wireTok (s : String) : Option Wire :=
+  match s with
+  | "0" => some .checkin
+  | "1" => some .task
+  | "2" => some .callback
   | _ => none
 
 def whichTok (s : String) : Option Which :=
@@ -76,6 +84,10 @@ def opTok (s : String) : Option Op :=
   | ["rc", d, w] =>
     match d.toNat?, whichTok w with
     | some d, some w => some (.recover d w)
+    | _, _ => none
+  | ["wr", d, w] =>
+    match d.toNat?, wireTok w with
+    | some d, some w => some (.recoverWire d w)
     | _, _ => none
   | ["pr"] => some .propsRaw
   | ["pp"] => some .propsPretty
@@ -110,6 +122,7 @@ def showDRes : DRes → String
   | .decoder d => "D:" ++ showDT d.1 ++ "/" ++ showDT d.2.1 ++ "/" ++ showDT d.2.2
   | .profile cells => "P:" ++ toString cells.length
   | .steps xs => "S:" ++ showDots xs
+  | .packets ks => "W:" ++ showDots ks
   | .snap ms => "N:" ++ "|".intercalate (ms.map showSnapView)
   | .unit => "U"
   | .exc e => "E:" ++ e.name
